@@ -18,7 +18,9 @@ RULE = (
     "hairpins == exactly the pairs enclosing only unpaired nucleotides; each loop has >=2 strands, consecutive "
     "strand ends are base-paired cyclically, interiors unpaired; every unpaired nucleotide is in the interior of "
     "exactly one single strand / hairpin / loop strand; every Strand's sequence/structure equals the slice of the "
-    "sequence / dot-bracket. Nothing more is demanded (empty-interior single strands are allowed). Non-trivial: "
+    "sequence / dot-bracket. Nothing more is demanded (empty-interior single strands are allowed). Before the elements are "
+    "asked, one of 9 histories of read-only queries (paired() iterated partly / fully / 5'->3' only, text, fcfs, "
+    "dot_bracket) is run on the same object, chosen by a fixed function of the case. Non-trivial: "
     "structure with a multiloop-capable branching (>=3 stems), a one-nucleotide bulge, a length-1 stem or a "
     "crossing; distinct = distinct (sequence, pair set). Also the motif_extractor command line on BPSEQ / dot-bracket files "
     "with every combination of --remove-isolated / --remove-pseudoknots: printed structure == expected reduced "
@@ -29,6 +31,19 @@ ASSUMPTIONS = [
     "exhaustive only up to N positions; larger structures are sampled",
     "trusted: reference stem finder in rnaverif/ssref.py",
 ]
+
+
+PRE_QUERY_FUNCS = {
+    "any-paired": lambda b: any(b.paired()),
+    "list-paired": lambda b: list(b.paired()),
+    "list-paired-5to3": lambda b: list(b.paired(only5to3=True)),
+    "first-paired": lambda b: next(iter(b.paired()), None),
+    "text": lambda b: (str(b), b.sequence),
+    "fcfs": lambda b: b.fcfs,
+    "dot-bracket": lambda b: b.dot_bracket,
+}
+PRE_QUERIES = [(), (), ("any-paired",), ("list-paired",), ("list-paired-5to3",), ("first-paired", "text"), ("fcfs",),
+               ("text", "list-paired", "dot-bracket"), ("dot-bracket", "any-paired")]
 
 
 def oracle(case) -> list:
@@ -44,6 +59,11 @@ def oracle(case) -> list:
     b = BpSeq.from_string(text)
     # other structure objects come into being before this one is asked (state shared between objects would show)
     _decoys = [BpSeq.from_string(t) for t in ssref.decoy_texts(n)]
+    # read-only queries a client may have made on the same object before asking for the elements (chosen by a
+    # fixed function of the case, so exhaustive tiers stay exhaustive): none of them may change the answer
+    history = PRE_QUERIES[(n * 31 + len(pairs) * 7 + sum(i for i, _ in pairs)) % len(PRE_QUERIES)]
+    for q in history:
+        PRE_QUERY_FUNCS[q](b)
     el = b.elements
     if not (isinstance(el, tuple) and len(el) == 4):
         return [D("C07:shape", f"elements returned {type(el).__name__}")]
